@@ -98,7 +98,8 @@ theorem c03_trieStoreGet (len k0 res : Int) (err nf : Bool) :
     GoFuncs.trieStoreGet len k0 res err nf =
       if len = 0 then (0, "ErrUnsupported")
       else if k0 % 256 = 112 ∨ k0 % 256 = 113 then
-        (if err = true ∧ nf = true then (0, "ErrKeyNotFound") else (res, "m_trie_Get_key_1_1_err"))
+        (if err = true ∧ nf = true then (0, "ErrKeyNotFound")
+         else (res, if err = true then "m_trie_Get_key_1_1_err" else "ok"))
       else (0, "ErrUnsupported") := by
   unfold GoFuncs.trieStoreGet
   rfl
